@@ -11,7 +11,11 @@ node = {"t":   "plain" | "component" | "datasource" | "parser" | "combiner" | "r
         "elems": [outcome, ...]    multi-output parser only: outcome per element of the list it is fed
         "coe":  bool               parser only: continue_on_error (default True)
         "en":   bool               enabled (default True)
-        "seed": bool               a value for the node is placed in the broker before evaluation}
+        "seed": bool               a value for the node is placed in the broker before evaluation
+        "treq": [item, ...]        optional key: dependencies declared on the component TYPE (class attribute `requires` of an
+                                   ad-hoc subclass of the node's type; items as in "decl"); they precede "decl" in declaration order
+        "topt": [int, ...]         optional key: class attribute `optional` of that ad-hoc type; precedes "opt"}
+Nodes with equal ("t", "treq", "topt") share ONE ad-hoc type (Graph.types[i] is the type object of node i).
 
 Bodies are callable objects with a harness-chosen __hash__ (mc.forcedhash idea) so that every
 iteration order of the engine's sets can be forced.  Each body appends ("invoke", idx, args) to
@@ -149,6 +153,8 @@ class Graph(object):
         self.raised = []           # (idx, exception instance, kind) for every exception a body raised
         self.nodes = []
         self.hook = None           # optional callable(event_tuple) used by the schedule explorer
+        self.types = []            # per node: the ComponentType (sub)class it was decorated with (None for registry points)
+        self._adhoc = {}           # (t, treq, topt) -> ad-hoc subclass carrying class-level requires / optional
         _counter[0] += 1
         tag = name_tag if name_tag is not None else "g%d" % _counter[0]
         n = len(desc["nodes"])
@@ -162,6 +168,7 @@ class Graph(object):
                 if nd.get("en", True) is False:
                     dr.set_enabled(rp, False)
                 self._wrap_process(rp, i)
+                self.types.append(None)
                 continue
             # name_order lets a driver make the lexicographic name order differ from the index
             # (= a topological) order, so "sorted by name" is not accidentally a valid schedule
@@ -169,6 +176,9 @@ class Graph(object):
             c = Comp(self, i, name, hashes[i])
             self.nodes.append(c)
             T = TYPES[nd["t"]]
+            if nd.get("treq") or nd.get("topt"):
+                T = self._adhoc_type(T, nd)
+            self.types.append(T)
             args = []
             for it in nd.get("decl", []):
                 if isinstance(it, list):
@@ -189,6 +199,20 @@ class Graph(object):
             if nd.get("en", True) is False:
                 dr.set_enabled(c, False)
             self._wrap_process(c, i)
+
+    def _adhoc_type(self, base, nd):
+        """A subclass of the node's component type that declares dependencies at CLASS level ("a list of components
+        that all components decorated with this type will implicitly require / depend on optionally")."""
+        key = repr((nd["t"], nd.get("treq") or [], nd.get("topt") or []))
+        T = self._adhoc.get(key)
+        if T is None:
+            requires = []
+            for it in nd.get("treq") or []:
+                requires.append([self.nodes[j] for j in it] if isinstance(it, list) else self.nodes[it])
+            optional = [self.nodes[j] for j in nd.get("topt") or []]
+            T = type("typed_%s_%d" % (nd["t"], len(self._adhoc)), (base,), {"requires": requires, "optional": optional})
+            self._adhoc[key] = T
+        return T
 
     # ---- instrumentation ---------------------------------------------------------------------
     def _emit(self, ev):
@@ -293,6 +317,9 @@ class Graph(object):
 
     def cleanup(self):
         cleanup_components(self.nodes)
+        for T in self._adhoc.values():
+            dr.COMPONENTS_BY_TYPE.pop(T, None)
+        self._adhoc = {}
         self.nodes = []
 
 
@@ -325,11 +352,12 @@ def flat_deps(nd):
     if nd["t"] == "rp":
         return list(nd.get("impl", []))
     out = []
-    for it in nd.get("decl", []):
+    for it in list(nd.get("treq") or []) + list(nd.get("decl", [])):
         if isinstance(it, list):
             out.extend(it)
         else:
             out.append(it)
+    out.extend(nd.get("topt") or [])
     out.extend(nd.get("opt", []) if nd["t"] != "parser" else [])
     return out
 
@@ -390,8 +418,9 @@ def ref_eval(desc, names, in_graph=None):
                 r.present = True
                 r.value = R[live[-1]].value        # the last declared implementation that produced a value
             continue
-        req = [it for it in nd.get("decl", []) if not isinstance(it, list)]
-        grp = [it for it in nd.get("decl", []) if isinstance(it, list)]
+        declared = list(nd.get("treq") or []) + list(nd.get("decl", []))
+        req = [it for it in declared if not isinstance(it, list)]
+        grp = [it for it in declared if isinstance(it, list)]
         miss_req = [j for j in req if not R[j].present]
         miss_grp = [g for g in grp if not any(R[j].present for j in g)]
         if miss_req or miss_grp:
